@@ -6,6 +6,7 @@ import (
 	"go/types"
 	"sort"
 	"strings"
+	"unicode"
 
 	"golang.org/x/tools/go/ssa"
 )
@@ -24,6 +25,8 @@ func runC16(c *Ctx) {
 	checkImportedTextClean(c)
 	checkEventKindsHandled(c)
 	checkCursorFieldAndFailureSeverity(c)
+	checkCleanupAgreesWithSafe(c)
+	checkEarlyStopIsError(c)
 }
 
 // R16.1
@@ -529,11 +532,11 @@ func checkImportedTextClean(c *Ctx) {
 	w := c.W
 	c.Doc("R16.4", "bridge/gitlab: title, message and label arguments of creating calls originate from text.Cleanup / text.CleanupOneLine (label names are cleaned where label events are produced)")
 	textArgs := map[string][]int{ // callee -> argument indexes holding tracker text
-		"cache.RepoCacheBug.NewRaw":          {2, 3},
-		"cache.BugCache.AddCommentRaw":       {2},
-		"cache.BugCache.EditCommentRaw":      {3},
+		"cache.RepoCacheBug.NewRaw":           {2, 3},
+		"cache.BugCache.AddCommentRaw":        {2},
+		"cache.BugCache.EditCommentRaw":       {3},
 		"cache.BugCache.ForceChangeLabelsRaw": {2, 3},
-		"cache.BugCache.ChangeLabelsRaw":     {2, 3},
+		"cache.BugCache.ChangeLabelsRaw":      {2, 3},
 	}
 	isClean := func(v ssa.Value) (bool, string) {
 		for _, o := range origins(v) {
@@ -787,4 +790,195 @@ func checkCursorFieldAndFailureSeverity(c *Ctx) {
 	if n < 3 {
 		c.Violate("R16.7", "expected:importer-steps", w.FnPos(ia), fmt.Sprintf("%d fallible importer steps found in ImportAll (reference 3: ensureIssue, ensureIssueEvent, Commit)", n))
 	}
+}
+
+// R16.8: what the importer's cleaning leaves is what validation accepts. The importer cleans tracker
+// text with text.Cleanup / CleanupOneLine; the operations' Validate refuses text that text.Safe /
+// SafeOneLine rejects. If a rune survives the cleaning and is rejected by the validation, a healthy
+// tracker containing it makes every round fail (and the cursor is never stored).
+func checkCleanupAgreesWithSafe(c *Ctx) {
+	w := c.W
+	c.Doc("R16.8", "util/text: for every rune of U+0000–U+02FF and representatives of the other classes, evaluated on the SSA of the functions themselves (unicode.IsControl/IsPrint/IsSpace/IsGraphic computed natively): a rune that the predicate handed to runes.Remove in Cleanup (CleanupOneLine) keeps is accepted by Safe (SafeOneLine)")
+	ext := map[string]func(args []fval) (fval, error){}
+	for name, f := range map[string]func(rune) bool{"unicode.IsControl": unicode.IsControl, "unicode.IsPrint": unicode.IsPrint, "unicode.IsSpace": unicode.IsSpace, "unicode.IsGraphic": unicode.IsGraphic, "unicode.IsLetter": unicode.IsLetter, "unicode.IsDigit": unicode.IsDigit} {
+		f := f
+		ext[name] = func(a []fval) (fval, error) {
+			if len(a) != 1 || a[0].k != fInt {
+				return fval{}, fmt.Errorf("unexpected arguments")
+			}
+			return fval{k: fBool, b: f(rune(a[0].i))}, nil
+		}
+	}
+	var runesToTry []rune
+	for r := rune(0); r <= 0x2FF; r++ {
+		runesToTry = append(runesToTry, r)
+	}
+	runesToTry = append(runesToTry, 0x200B, 0x200E, 0x2028, 0x2029, 0x202E, 0x3000, 0xD7FF, 0xE000, 0xFEFF, 0xFFFD, 0xFFFE, 0x1F600, 0xE0001, 0x10FFFF)
+	for _, pair := range [][2]string{{"Cleanup", "Safe"}, {"CleanupOneLine", "SafeOneLine"}} {
+		key := "text." + pair[0] + "⊆" + pair[1]
+		cf, sf := w.Func("util/text", pair[0]), w.Func("util/text", pair[1])
+		if cf == nil || sf == nil {
+			c.Undecided("R16.8", "anchor:"+key, "util/text", "not found")
+			continue
+		}
+		c.seeFn(funcName(cf))
+		c.seeFn(funcName(sf))
+		// the predicate handed to runes.Remove
+		var pred *ssa.Function
+		for _, cl := range Calls(cf) {
+			if !strings.HasSuffix(cl.Name, "text/runes.Remove") || len(cl.Args()) != 1 {
+				continue
+			}
+			arg := cl.Args()[0]
+			if pc, isCall := arg.(*ssa.Call); isCall {
+				if n, _ := callName(pc.Common()); strings.HasSuffix(n, "text/runes.Predicate") && len(pc.Common().Args) == 1 {
+					arg = pc.Common().Args[0]
+				}
+			}
+			for _, o := range origins(arg) {
+				switch o.Kind {
+				case "closure":
+					if mc, ok := o.Val.(*ssa.MakeClosure); ok && len(mc.Bindings) == 0 {
+						pred, _ = mc.Fn.(*ssa.Function)
+					}
+				case "func":
+					pred, _ = o.Val.(*ssa.Function)
+				}
+			}
+		}
+		if pred == nil {
+			c.Info("R16.8", key, w.FnPos(cf), "no rune predicate handed to runes.Remove found: the cleaning is not interpreted")
+			continue
+		}
+		evalPred := func(r rune) (bool, error) {
+			if e, isExt := ext[pred.String()]; isExt {
+				v, err := e([]fval{{k: fInt, i: int64(r)}})
+				return v.b, err
+			}
+			env := &fenv{concrete: true, extern: ext, cells: map[int]*fval{}}
+			rs, err := env.run(pred, []fval{{k: fInt, i: int64(r)}}, 0)
+			if err != nil || len(rs) != 1 {
+				return false, fmt.Errorf("predicate not evaluable: %v", err)
+			}
+			return rs[0].b, nil
+		}
+		bad, undec := "", ""
+		for _, r := range runesToTry {
+			c.Sites++
+			removed, err := evalPred(r)
+			if err != nil {
+				undec = err.Error()
+				break
+			}
+			env := &fenv{concrete: true, extern: ext, cells: map[int]*fval{}}
+			rs, err := env.run(sf, []fval{{k: fStr, rs: []rune{r}}}, 0)
+			if err != nil || len(rs) != 1 {
+				undec = fmt.Sprintf("%s not evaluable: %v", pair[1], err)
+				break
+			}
+			if !removed && !rs[0].b && bad == "" {
+				bad = fmt.Sprintf("U+%04X survives %s and is rejected by %s", r, pair[0], pair[1])
+			}
+		}
+		if undec != "" {
+			c.Info("R16.8", key, w.FnPos(cf), "not interpreted: "+undec)
+			continue
+		}
+		c.Check(bad == "", "R16.8", key, w.FnPos(cf), fmt.Sprintf("%d runes: every rune %s keeps is accepted by %s", len(runesToTry), pair[0], pair[1]),
+			bad+": tracker text containing it is cleaned, then refused by the operation's validation ('not fully printable') — the import of a healthy tracker reports an error on every round and the cursor is never stored")
+	}
+}
+
+// R16.9: a round that stops before the listing is exhausted says so. Bridge.ImportAllSince stores the
+// cursor when no error event was relayed: an importer that leaves its loop over the listed issues without
+// an error event makes the issues it did not handle disappear behind the cursor.
+func checkEarlyStopIsError(c *Ctx) {
+	w := c.W
+	c.Doc("R16.9", "gitlabImporter.ImportAll: every edge leaving the loop over the listed issues (or a loop over an issue's events) before the channel is exhausted leads to a block that sends core.NewImportError on the result channel before returning")
+	fn := w.Method("bridge/gitlab", "gitlabImporter", "ImportAll")
+	if fn == nil {
+		c.Undecided("R16.9", "anchor:gitlabImporter.ImportAll", "bridge/gitlab", "not found")
+		return
+	}
+	sendsError := func(b *ssa.BasicBlock) bool {
+		// follow the straight line from b
+		seen := map[*ssa.BasicBlock]bool{}
+		for x := b; x != nil && !seen[x]; {
+			seen[x] = true
+			for _, ins := range x.Instrs {
+				if sd, ok := ins.(*ssa.Send); ok {
+					if hasOriginCall(sd.X, "bridge/core.NewImportError", -1) != nil {
+						return true
+					}
+				}
+			}
+			if len(x.Succs) == 1 {
+				x = x.Succs[0]
+			} else {
+				x = nil
+			}
+		}
+		return false
+	}
+	loops, exits := 0, 0
+	for _, an := range fn.AnonFuncs {
+		c.seeFn(funcName(an))
+		for _, h := range an.Blocks {
+			if !isLoopHeader(h) {
+				continue
+			}
+			// a range over a channel: the header receives with comma-ok
+			isChanRange := false
+			for _, ins := range h.Instrs {
+				if u, ok := ins.(*ssa.UnOp); ok && u.Op == token.ARROW && u.CommaOk {
+					isChanRange = true
+				}
+			}
+			if !isChanRange {
+				continue
+			}
+			loops++
+			for _, b := range an.Blocks {
+				if b == h || !inLoop(b, h) {
+					continue
+				}
+				for _, s := range b.Succs {
+					if inLoop(s, h) {
+						continue
+					}
+					// leaving an inner loop normally into the outer loop is not an exit of the outer loop
+					if oh := outermostLoopHeader(b); oh != nil && oh != h && inLoop(s, oh) {
+						continue
+					}
+					exits++
+					c.Sites++
+					what := fmt.Sprintf("#%d", exits)
+					if iff, isIf := b.Instrs[len(b.Instrs)-1].(*ssa.If); isIf {
+						var names []string
+						var ops []ssa.Value
+						if bo, isBo := iff.Cond.(*ssa.BinOp); isBo {
+							ops = []ssa.Value{bo.X, bo.Y}
+						} else {
+							ops = []ssa.Value{iff.Cond}
+						}
+						for _, op := range ops {
+							for _, o := range origins(op) {
+								if o.Kind == "call" {
+									names = append(names, o.Name)
+								}
+							}
+						}
+						if len(names) > 0 {
+							sort.Strings(names)
+							what = "after:" + strings.Join(names, ",")
+						}
+					}
+					c.Check(sendsError(s), "R16.9", fmt.Sprintf("%s:early-exit:%s", funcName(an), what), w.InstrPos(firstPosInstr(s)),
+						"the early exit sends an import error first",
+						"the import loop is left before the listing is exhausted without an error event: ImportAllSince sees a clean round, stores the cursor, and the issues not handled yet are never imported")
+				}
+			}
+		}
+	}
+	c.Check(loops >= 2 && exits >= 2, "R16.9", "gitlabImporter.ImportAll:loops-found", w.FnPos(fn), fmt.Sprintf("%d channel loops, %d early exits, each reported", loops, exits), fmt.Sprintf("%d channel loops and %d early exits found (reference: 2 loops, 2 exits)", loops, exits))
 }
